@@ -29,6 +29,22 @@ PROPS = {
         "level": "proof",
         "units": [
             {"kind": "verus", "unit": "int"},
+            {"kind": "kani-mini", "crate": "int", "harnesses": [
+                {"harness": "harness::" + h, "fn": "src/util/lazy_bigint.rs :: " + f, "timeout": 300}
+                for h, f in [
+                    ("from_i64", "impl<T> From<T> for LazyBigint (T = i64)"),
+                    ("from_u64", "impl<T> From<T> for LazyBigint (T = u64)"),
+                    ("from_usize", "impl<T> From<T> for LazyBigint (T = usize)"),
+                    ("from_i128", "impl<T> From<T> for LazyBigint (T = i128)"),
+                    ("ss_rem_canonical", "impl Rem for LazyBigint (Short x Short)"),
+                    ("ss_div_canonical", "impl Div for LazyBigint (Short x Short, rhs > 0)"),
+                    ("neg_value_short", "impl Neg for LazyBigint (Short)"),
+                    ("cmp_short", "impl Ord for LazyBigint (Short x Short), derived PartialEq"),
+                ]
+            ] + [
+                {"harness": "harness::from_bigint_2digits", "fn": "src/util/lazy_bigint.rs :: impl<T> From<T> for LazyBigint (T = BigInt)",
+                 "bound": "BigInt values of at most 127 bits (built from a symbolic i128)", "timeout": 300},
+            ]},
         ],
         "unreached": [],
         "assumptions": [
